@@ -171,14 +171,60 @@ pub fn user_op(g: &mut Gen, model: &Model, c: usize) -> Op {
             false => {
                 let u = g.rng.pick(&non_root).clone();
                 let current = model.users.get(&u.0).and_then(|m| m.perms.clone());
+                let logged_in: Vec<usize> = (1..g.cfg.clients).filter(|c2| model.sessions.get(*c2).map(|s| s.user == u.0).unwrap_or(false)).collect();
+                let existing: Vec<u32> = model.streams.iter().filter(|(_, s)| !s.topics.is_empty()).map(|(k, _)| *k).collect();
+                if !g.in_probe && !logged_in.is_empty() && !existing.is_empty() && g.rng.chance(g.cfg.revocation_chance * 0.4) {
+                    // directed history "grant exactly one data flag on one stream, use it, take it away, try again":
+                    // every per-stream flag combination of the form {read access + one of send / poll / manage_topics}
+                    let focus = *g.rng.pick(&existing);
+                    let data_flag = *g.rng.pick(&[5usize, 5, 4, 2]);
+                    let mut flags = [false, true, false, true, false, false];
+                    flags[data_flag] = true;
+                    let mut global = [false; 10];
+                    if g.rng.chance(0.3) {
+                        global[3] = true; // read_streams
+                    }
+                    let granted = PermSpec { global, streams: Some(vec![(focus, flags, None)]) };
+                    let mut revoked = granted.clone();
+                    match g.rng.below(3) {
+                        0 => revoked.streams.as_mut().unwrap()[0].1[data_flag] = false,
+                        1 => revoked.streams = if g.cfg.codec_corners { Some(vec![]) } else { None },
+                        _ => {
+                            revoked.streams.as_mut().unwrap()[0].1[data_flag] = false;
+                            revoked.streams.as_mut().unwrap()[0].1[1] = true;
+                        }
+                    }
+                    for phase in 0..2 {
+                        for c2 in &logged_in {
+                            for _ in 0..3 {
+                                if let Some(op) = g.targeted_permission_probe(model, *c2, focus) {
+                                    g.pending.push_back(op);
+                                }
+                            }
+                        }
+                        if phase == 0 {
+                            let user = uref(g, &u);
+                            g.pending.push_back(Op::UpdatePermissions { c, user, perms: Some(revoked.clone()) });
+                        }
+                    }
+                    return Op::UpdatePermissions { c, user: uref(g, &u), perms: Some(granted) };
+                }
                 let perms = match current {
                     Some(current) if !g.in_probe && g.rng.chance(g.cfg.revocation_chance) => {
                         // revocation arm: take one grant away, keep the rest, and let the user's open
-                        // connections try at once what the old record allowed
+                        // connections try at once what the old record allowed - mostly on the streams the
+                        // record names
+                        let named: Vec<u32> = current.streams.as_ref().map(|s| s.iter().map(|x| x.0).filter(|sid| model.streams.contains_key(sid)).collect()).unwrap_or_default();
                         for c2 in 1..g.cfg.clients {
                             if model.sessions.get(c2).map(|s| s.user == u.0).unwrap_or(false) {
-                                for _ in 0..(2 + g.rng.below(4)) {
-                                    if let Some(op) = g.permission_probe(model, c2) {
+                                for _ in 0..(3 + g.rng.below(5)) {
+                                    let op = if !named.is_empty() && g.rng.chance(0.7) {
+                                        let focus = *g.rng.pick(&named);
+                                        g.targeted_permission_probe(model, c2, focus)
+                                    } else {
+                                        g.permission_probe(model, c2)
+                                    };
+                                    if let Some(op) = op {
                                         g.pending.push_back(op);
                                     }
                                 }
